@@ -42,6 +42,12 @@ def run(ctx):
     else:
         if not tp.dominates(tok[0], fe[0]) or not any(tp.dominates(c, fe[0]) for c in con):
             r.violate("flush_encoding_change|placement", "the encoding switch is not applied right after the (meta) token was produced and committed: bytes after the meta tag can reach the sink before set_encoding, and end-of-document content would use the old encoding", tp.loc())
+    if len(fe) == 1:
+        fg = [tp.deep(tp.blocks[sb]["term"]["d"]) for sb in guarding_branches(tp, fe[0])]
+        extra = [g for g in fg if not (g.startswith("discr(ToToken::to_token(") or g.startswith("discr(Result::branch[Try](DispatcherDelegate::token_produced("))]
+        r.inst("flush_encoding_change|unconditional-after-commit", sample={"guards": [g[:50] for g in fg]})
+        if extra:
+            r.violate("flush_encoding_change|unconditional-after-commit", f"the pending encoding switch is applied only under an extra condition ({[g[:70] for g in extra]}): when the <meta> start tag is the only captured token (e.g. only a selector-scoped text handler is registered) the switch is never applied and the following text is decoded in the old encoding", tp.loc())
     callers = sorted(set(f.key for f, bi, t in mir.callers_of(r"Dispatcher::flush_encoding_change$") if not mir.is_test_fn(f)))
     r.inst("flush_encoding_change|callers", sample={"callers": callers})
     if callers != ["Dispatcher::try_produce_token_from_lexeme"]:
@@ -153,6 +159,19 @@ def run(ctx):
         ok = ok and bool(setc) and all(hc.dominates(sets[0][0], c) or hc.dominates(c, sets[0][0]) for c in setc)
     if not ok:
         r.violate("meta-handler|found-set-under-some-charset", "the <meta> handler marks the encoding as decided somewhere else than under `Some(charset)`: a <meta name=viewport> (or an unusable charset label) before the real declaration would make the declaration be ignored", hc.loc())
+    # the pragma form counts only for http-equiv=Content-Type: from_mimetype is reached through a filter on that value
+    pr = [g for g in mir.fns if g.key.startswith("rewriter::handler_adjust_charset_on_meta_tag::{closure#0}")]
+    mime_users = [g for g in pr if list(g.calls(r"AsciiCompatibleEncoding::from_mimetype$"))]
+    filt = [g for g in pr if any("Content-Type" in g.deep(a) for bi, t in g.calls(r"eq_ignore_ascii_case$") for a in t["args"])]
+    okp = False
+    for g in pr:
+        for bi, t in g.calls(r"Option::and_then$"):
+            cl_ = [x["rv"]["name"] for a in t["args"][1:] if a.get("k") in ("copy", "move") for kind, dbi, x in g.defs_of(a["p"]["local"]) if kind == "assign" and x["rv"]["k"] == "agg" and x["rv"].get("what") == "closure"]
+            if any(m_.path in cl_ for m_ in mime_users) and "Option::filter(" in g.deep(t["args"][0]) and "http-equiv" in g.deep(t["args"][0]):
+                okp = True
+    r.inst("meta-handler|pragma-only-for-content-type", sample={"from_mimetype_in": [m_.key.split("::")[-1] for m_ in mime_users], "content_type_filters": len(filt)})
+    if not okp or not filt or len(mime_users) != 1:
+        r.violate("meta-handler|pragma-only-for-content-type", "the <meta> handler reads a charset from `content` without requiring http-equiv to be Content-Type (ASCII case-insensitively): `<meta http-equiv=Content-Style-Type content=\"text/css; charset=euc-jp\">` would switch the document encoding and use up the single permitted switch", hc.loc())
     fs = mir.fn("HtmlRewriteController::from_settings")
     ch = [(fs.deep(t["args"][0]), fs.deep(t["args"][1])) for bi, t in fs.calls(r"Iterator::chain$|::chain$")]
     r.inst("from_settings|meta-handler-first", sample={"chain": [(a[:60], b[:60]) for a, b in ch]})
